@@ -23,6 +23,7 @@ func (e *Engine) VerifyFunc(b Bound) (u *Unit) {
 	u.FuncKey = c.Key
 	u.PkgPath = c.PkgPath
 	u.contract = c
+	u.Timeout = c.Timeout
 	for k, v := range c.Safety {
 		u.safety[k] = v
 	}
@@ -91,6 +92,7 @@ func (e *Engine) VerifyFunc(b Bound) (u *Unit) {
 			continue
 		}
 		pres = append(pres, t)
+		penv.recordHyps(rq.E, "")
 	}
 	if len(pres) > 0 {
 		pre = u.define("pre", "Bool", "(and true "+strings.Join(pres, " ")+")")
@@ -103,9 +105,25 @@ func (e *Engine) VerifyFunc(b Bound) (u *Unit) {
 		return u
 	}
 	fr.run(params, free, entry, "true")
+	if c.Pure {
+		var wrote []string
+		for _, w := range fr.written {
+			for k := range w {
+				if strings.HasPrefix(k, "whole|") || strings.HasPrefix(k, "ref|") {
+					continue
+				}
+				if !strings.HasPrefix(k, "cell.") && k != allocKey && !strings.HasPrefix(k, "M.") {
+					wrote = append(wrote, k)
+				}
+			}
+		}
+		if len(wrote) > 0 {
+			u.addObl("frame", fmt.Sprintf("function declared pure writes no heap location (writes: %v)", wrote), e.pos(fn.Pos()), "true", "false")
+		}
+	}
 	// postconditions
 	for k, en := range c.Ensures {
-		var goals []string
+		var goals, extra []string
 		ok := true
 		for _, r := range fr.rets {
 			env := fr.specEnvAt(r.blk, r.st, nil)
@@ -114,12 +132,13 @@ func (e *Engine) VerifyFunc(b Bound) (u *Unit) {
 			for i, p := range fn.Params {
 				env.vars[p.Name()] = params[i]
 			}
-			t, err := env.boolExpr(en.E)
+			t, ex, err := env.goal(en.E)
 			if err != nil {
 				u.bindingError(fmt.Sprintf("ensures %d: %v", k+1, err))
 				ok = false
 				break
 			}
+			extra = append(extra, ex...)
 			goals = append(goals, "(=> "+r.cur+" "+t+")")
 		}
 		if !ok {
@@ -131,7 +150,8 @@ func (e *Engine) VerifyFunc(b Bound) (u *Unit) {
 		} else if len(goals) > 1 {
 			g = "(and " + strings.Join(goals, " ") + ")"
 		}
-		u.addObl("post", "postcondition: "+en.Src, fmt.Sprintf("%s:%d", en.File, en.Line), "true", g)
+		po := u.addObl("post", "postcondition: "+en.Src, fmt.Sprintf("%s:%d", en.File, en.Line), "true", g)
+		po.Extra = extra
 	}
 	// a reachable return must exist (vacuity guard on the body encoding)
 	if len(fr.rets) > 0 {
@@ -175,6 +195,7 @@ func (e *Engine) VerifyLemma(lm *Lemma) (u *Unit) {
 	u = newUnit(e, pkgName+".lemma."+lm.Name, modeOf(lm.Arith, lm.Floats))
 	u.FuncKey = "lemma " + lm.Name
 	u.PkgPath = lm.PkgPath
+	u.Timeout = lm.Timeout
 	u.contract = &Contract{Props: lm.Props, Key: "lemma " + lm.Name, PkgPath: lm.PkgPath}
 	defer func() {
 		if r := recover(); r != nil {
